@@ -33,6 +33,7 @@ import Frp.Engines.Svc
 import Frp.Engines.Teardown
 import Frp.Engines.Xport
 import Frp.Engines.CtlReg
+import Frp.Engines.Replace
 /-! Registry of driver engines (one line per engine). -/
 namespace Frp.Engines
 open Frp.Proto
@@ -74,5 +75,6 @@ def all : List (String × Engine) :=
   , ("td", td)
   , ("xport", xport)
   , ("xprace", xport)
+  , ("replace", replace)
   ]
 end Frp.Engines
